@@ -619,4 +619,237 @@ Section E2E.
       + left. apply (g_wait0 en j v Hen Hs Hd Ho).
       + right. apply (in_new la (j, en_e en) v Hd Ho).
   Qed.
+
+  Lemma acc_marks : forall ra ents, acc (marks ra ents) = acc ents.
+  Proof.
+    induction ra as [|x ra IH]; intros ents; [reflexivity|].
+    cbn [marks fold_left]. fold (marks ra (map (mark (rid x) (snd x)) ents)). rewrite IH. apply acc_mark.
+  Qed.
+
+  Lemma sig_marks : forall ra ents, map sig (marks ra ents) = map sig ents.
+  Proof.
+    induction ra as [|x ra IH]; intros ents; [reflexivity|].
+    cbn [marks fold_left]. fold (marks ra (map (mark (rid x) (snd x)) ents)). rewrite IH.
+    rewrite map_map. apply map_ext. intros en. unfold mark, sig.
+    destruct (en_s en); try reflexivity. destruct (Nat.eqb j (rid x)); reflexivity.
+  Qed.
+
+  Lemma in_marks_wait : forall ra ents en j, In en (marks ra ents) -> en_s en = Wait j ->
+    In en ents /\ ~ In j (map rid ra).
+  Proof.
+    induction ra as [|x ra IH]; intros ents en j Hin Hs; [split; [exact Hin|intros []]|].
+    cbn [marks fold_left] in Hin. fold (marks ra (map (mark (rid x) (snd x)) ents)) in Hin.
+    destruct (IH _ en j Hin Hs) as [Hin' Hni].
+    destruct (in_mark_wait _ _ _ _ _ Hin' Hs) as [Hin0 Hne].
+    split; [exact Hin0|]. intros [Hx|Hx]; [congruence|contradiction].
+  Qed.
+
+  Lemma went_mark : forall j v ents, Forall went ents ->
+    (forall en, In en ents -> en_s en = Wait j -> outcome (en_e en) = Some v) ->
+    Forall went (map (mark j v) ents).
+  Proof.
+    intros j v ents H Ho. rewrite Forall_forall in *. intros en' Hin.
+    apply in_map_iff in Hin. destruct Hin as [en [<- Hen]]. specialize (H en Hen).
+    unfold mark. destruct (en_s en) eqn:E; try exact H.
+    destruct (Nat.eqb j0 j) eqn:Ej; [|exact H]. apply Nat.eqb_eq in Ej. subst j0.
+    unfold went in *. rewrite E in H. cbn [en_e en_m en_s]. destruct H as [Hwf [H1 H2]].
+    split; [exact Hwf|]. repeat split; try assumption. apply (Ho en Hen E).
+  Qed.
+
+  Lemma went_marks : forall ra ents, Forall went ents ->
+    (forall x en, In x ra -> In en ents -> en_s en = Wait (rid x) -> outcome (en_e en) = Some (snd x)) ->
+    Forall went (marks ra ents).
+  Proof.
+    induction ra as [|x ra IH]; intros ents H Ho; [exact H|].
+    cbn [marks fold_left]. fold (marks ra (map (mark (rid x) (snd x)) ents)). apply IH.
+    - apply went_mark; [exact H|]. intros en Hen Hs. apply (Ho x en (or_introl eq_refl) Hen Hs).
+    - intros y en Hy Hen Hs. destruct (in_mark_wait _ _ _ _ _ Hen Hs) as [Hen0 _].
+      apply (Ho y en (or_intror Hy) Hen0 Hs).
+  Qed.
+
+  Lemma gi_ba : forall ents done todo R s d rest, GI ents done todo R s -> wba s = d ++ rest ->
+    exists ents' R',
+      GI ents' done todo R'
+         (aread {| a_nid := a_nid s; a_issued := a_issued s; a_nores := a_nores s; a_pend := a_pend s;
+                   a_calls := a_calls s; a_buf := a_buf s; b_buf := b_buf s; b_log := b_log s;
+                   wab := wab s; wba := rest; bad := bad s |} d)
+      /\ map sig ents' = map sig ents.
+  Proof.
+    intros ents done todo R s d rest G Hw. destruct G. rewrite Hw in g_ba0.
+    destruct (f_step _ _ _ _ g_ba0) as (out & buf' & exp' & Hfeed & Hsplit & Hinv).
+    apply map_eq_app in Hsplit. destruct Hsplit as (ra & rb & HR & Hra & Hrb). subst R out exp'.
+    change (feed json prs [TILDE; TILDE; TILDE] (a_buf s) d) with (feed json prs DELIM (a_buf s) d) in Hfeed.
+    assert (Hndacc : NoDup (map fst (acc ents))) by (rewrite g_ids0; apply seq_NoDup).
+    assert (Hpay : forall x en, In x ra -> In en ents -> en_s en = Wait (rid x) -> en_e en = snd (fst x)).
+    { intros x en Hx Hen Hs.
+      destruct (g_rin0 x (in_or_app _ _ _ (or_introl Hx))) as [Hd _].
+      assert (E : (rid x, en_e en) = fst x).
+      { apply (uniq_fst _ (acc ents)); [exact Hndacc|apply (in_acc_wait ents en _ Hen Hs)| |reflexivity].
+        rewrite g_split0. apply in_or_app. left. exact Hd. }
+      rewrite <- E. reflexivity. }
+    rewrite map_app in g_rnd0.
+    unfold NodeProto.a_read. cbn [b_buf a_nid a_issued a_nores a_pend a_calls a_buf b_log wab wba bad].
+    rewrite Hfeed, g_pend0, g_calls0.
+    rewrite (a_batch ra (pend_of 0 ents) ents (NoDup_app_left _ _ _ g_rnd0) (NoDup_waits ents Hndacc)
+               (fun x _ => eq_refl) Hpay).
+    exists (marks ra ents), rb. split; [|apply sig_marks].
+    constructor; cbn [a_nid a_calls a_pend bad b_buf wab b_log a_buf wba]; try assumption.
+    - rewrite acc_marks. exact g_nid0.
+    - reflexivity.
+    - apply (filter_pend ents (marks ra ents) (evo_marks ra ents ents (evo_refl ents)) 0 [] eq_refl).
+    - rewrite g_bad0. reflexivity.
+    - apply went_marks; [exact g_went0|]. intros x en Hx Hen Hs.
+      rewrite (Hpay x en Hx Hen Hs). apply (g_rin0 x (in_or_app _ _ _ (or_introl Hx))).
+    - rewrite acc_marks. exact g_ids0.
+    - rewrite acc_marks. exact g_split0.
+    - apply (NoDup_app_right _ _ _ g_rnd0).
+    - intros x Hx. apply g_rin0. apply in_or_app. right. exact Hx.
+    - intros en j v Hen Hs Hd Ho. destruct (in_marks_wait ra ents en j Hen Hs) as [Hen0 Hni].
+      pose proof (g_wait0 en j v Hen0 Hs Hd Ho) as Hin. apply in_app_or in Hin.
+      destruct Hin as [Hin|Hin]; [|exact Hin].
+      exfalso. apply Hni. change j with (rid (j, en_e en, v)). apply in_map. exact Hin.
+  Qed.
+
+  (* ---- schedules *)
+  Notation stp := (step excl dumps loads DELIM fw_send fw_recv handler b_chan).
+
+  (* honest: sends of well-formed events and deliveries of any size; nothing is injected on the wires *)
+  Definition honest_op (o : op) : Prop :=
+    match o with OSend e _ => wf_event e | OInjAB _ | OInjBA _ => False | _ => True end.
+  Definition sends_of (ops : list op) : list (event * smode) :=
+    flat_map (fun o => match o with OSend e m => [(e, m)] | _ => [] end) ops.
+
+  Lemma take_split : forall n (l : list N), fst (take n l) ++ snd (take n l) = l.
+  Proof. intros n l. unfold take. destruct n; cbn [fst snd]; [apply app_nil_r|apply firstn_skipn]. Qed.
+
+  Lemma take_packet_split : forall l, fst (take_packet DELIM l) ++ snd (take_packet DELIM l) = l.
+  Proof.
+    intros l. unfold take_packet. destruct (split DELIM l) as [|h [|h2 t]]; cbn [fst snd];
+      try apply app_nil_r. apply firstn_skipn.
+  Qed.
+
+  Lemma gi_step : forall ents done todo R s o, GI ents done todo R s -> honest_op o ->
+    exists ents' done' todo' R', GI ents' done' todo' R' (stp s o) /\
+                                 map sig ents' = map sig ents ++ sends_of [o].
+  Proof.
+    intros ents done todo R s o G Ho. destruct o as [e m|b|b|n|n| |]; cbn [NodeProto.step].
+    - destruct (gi_send ents done todo R s e m G Ho) as (ents' & todo' & G' & Hs).
+      exists ents', done, todo', R. split; [exact G'|]. rewrite Hs. reflexivity.
+    - destruct Ho.
+    - destruct Ho.
+    - pose proof (take_split n (wab s)) as Hs. destruct (take n (wab s)) as [d rest]. cbn [fst snd] in Hs.
+      destruct d as [|d0 d].
+      + exists ents, done, todo, R. split; [exact G|cbn; rewrite app_nil_r; reflexivity].
+      + destruct (gi_ab ents done todo R s (d0 :: d) rest G (eq_sym Hs)) as (done' & todo' & R' & G').
+        exists ents, done', todo', R'. split; [exact G'|cbn; rewrite app_nil_r; reflexivity].
+    - pose proof (take_split n (wba s)) as Hs. destruct (take n (wba s)) as [d rest]. cbn [fst snd] in Hs.
+      destruct d as [|d0 d].
+      + exists ents, done, todo, R. split; [exact G|cbn; rewrite app_nil_r; reflexivity].
+      + destruct (gi_ba ents done todo R s (d0 :: d) rest G (eq_sym Hs)) as (ents' & R' & G' & Hsig).
+        exists ents', done, todo, R'. split; [exact G'|cbn; rewrite app_nil_r; exact Hsig].
+    - pose proof (take_packet_split (wab s)) as Hs. destruct (take_packet DELIM (wab s)) as [d rest].
+      cbn [fst snd] in Hs. destruct d as [|d0 d].
+      + exists ents, done, todo, R. split; [exact G|cbn; rewrite app_nil_r; reflexivity].
+      + destruct (gi_ab ents done todo R s (d0 :: d) rest G (eq_sym Hs)) as (done' & todo' & R' & G').
+        exists ents, done', todo', R'. split; [exact G'|cbn; rewrite app_nil_r; reflexivity].
+    - pose proof (take_packet_split (wba s)) as Hs. destruct (take_packet DELIM (wba s)) as [d rest].
+      cbn [fst snd] in Hs. destruct d as [|d0 d].
+      + exists ents, done, todo, R. split; [exact G|cbn; rewrite app_nil_r; reflexivity].
+      + destruct (gi_ba ents done todo R s (d0 :: d) rest G (eq_sym Hs)) as (ents' & R' & G' & Hsig).
+        exists ents', done, todo, R'. split; [exact G'|cbn; rewrite app_nil_r; exact Hsig].
+  Qed.
+
+  Lemma gi_run : forall ops ents done todo R s, GI ents done todo R s -> Forall honest_op ops ->
+    exists ents' done' todo' R', GI ents' done' todo' R' (fold_left stp ops s) /\
+                                 map sig ents' = map sig ents ++ sends_of ops.
+  Proof.
+    induction ops as [|o ops IH]; intros ents done todo R s G H.
+    - exists ents, done, todo, R. split; [exact G|cbn; rewrite app_nil_r; reflexivity].
+    - inversion H as [|? ? Ho Hops]; subst. cbn [fold_left].
+      destruct (gi_step ents done todo R s o G Ho) as (e1 & d1 & t1 & R1 & G1 & S1).
+      destruct (IH e1 d1 t1 R1 _ G1 Hops) as (e2 & d2 & t2 & R2 & G2 & S2).
+      exists e2, d2, t2, R2. split; [exact G2|].
+      rewrite S2, S1, <- app_assoc. f_equal. unfold sends_of. cbn [flat_map]. rewrite app_nil_r. reflexivity.
+  Qed.
+
+  Lemma gi_init : GI [] [] [] [] st0.
+  Proof.
+    constructor; cbn; try reflexivity; try (left; auto; fail); try (constructor; fail).
+    - intros x [].
+    - intros en j v [].
+  Qed.
+
+  (* what the caller's entry for a send must finally hold *)
+  Definition exp1 (em : event * smode) : call :=
+    let '(e, m) := em in
+    if fw_send e then
+      match m with
+      | MCall => match outcome e with Some v => final e v | None => call0 end
+      | _ => call0
+      end
+    else rej_call m.
+
+  Lemma log_acc : forall ents, Forall went ents ->
+    flat_map (fun je => logof (snd je)) (acc ents) =
+    flat_map logof (filter fw_send (map fst (map sig ents))).
+  Proof.
+    induction ents as [|en r IH]; intros H; [reflexivity|]. inversion H as [|? ? Hen Hr]; subst.
+    unfold acc. cbn [flat_map map]. fold (acc r). rewrite flat_map_app, (IH Hr).
+    cbn [filter]. change (fst (sig en)) with (en_e en). destruct Hen as [_ Hen]. unfold acc1.
+    destruct (en_s en); cbn [flat_map snd app].
+    - rewrite Hen. reflexivity.
+    - destruct Hen as [-> _]. cbn [flat_map]. rewrite app_nil_r. reflexivity.
+    - destruct Hen as [-> _]. cbn [flat_map]. rewrite app_nil_r. reflexivity.
+    - destruct Hen as [-> _]. cbn [flat_map]. rewrite app_nil_r. reflexivity.
+  Qed.
+
+  Theorem end_to_end : forall ops, Forall honest_op ops ->
+    let s := exec excl dumps loads DELIM fw_send fw_recv handler b_chan ops in
+    wab s = [] -> wba s = [] ->
+    b_log s = flat_map logof (filter fw_send (map fst (sends_of ops)))
+    /\ a_calls s = map exp1 (sends_of ops)
+    /\ a_buf s = [] /\ b_buf s = [] /\ bad s = false.
+  Proof.
+    intros ops H s Hab Hba. subst s. unfold exec in *.
+    destruct (gi_run ops [] [] [] [] st0 gi_init H) as (ents & done & todo & R & G & Hsig).
+    cbn [map app] in Hsig. destruct G. rewrite Hab in g_ab0. rewrite Hba in g_ba0.
+    destruct (f_end _ _ g_ab0) as [Hbb Htodo]. destruct (f_end _ _ g_ba0) as [Hbuf HR].
+    apply map_eq_nil in Htodo. apply map_eq_nil in HR. subst todo R. rewrite app_nil_r in g_split0.
+    split; [|split; [|auto]].
+    - rewrite g_log0, <- g_split0, <- Hsig. apply log_acc. exact g_went0.
+    - rewrite g_calls0, <- Hsig, map_map. apply map_ext_in. intros en Hen.
+      rewrite Forall_forall in g_went0. destruct (g_went0 en Hen) as [_ Hw].
+      unfold call_of, exp1, sig. destruct (en_s en) eqn:E.
+      + rewrite Hw. reflexivity.
+      + destruct Hw as [-> Hm]. destruct (en_m en); [congruence|reflexivity|reflexivity].
+      + destruct Hw as [-> ->]. destruct (outcome (en_e en)) as [v|] eqn:Ho; [|reflexivity].
+        exfalso. apply (g_wait0 en j v Hen E); [|exact Ho].
+        rewrite <- g_split0. apply (in_acc_wait ents en j Hen E).
+      + destruct Hw as (-> & -> & ->). reflexivity.
+  Qed.
+
+  (* reading aids for [exp1] / [logof] *)
+  Lemma exp1_call : forall e r, fw_send e = true -> outcome e = Some r ->
+    exp1 (e, MCall) = final e r /\ c_fin (final e r) = true /\ c_val (final e r) = r.
+  Proof. intros e r Hf Ho. unfold exp1. rewrite Hf, Ho. auto. Qed.
+  Lemma exp1_raise : forall e, fw_send e = true -> outcome e = None -> exp1 (e, MCall) = call0.
+  Proof. intros e Hf Ho. unfold exp1. rewrite Hf, Ho. reflexivity. Qed.
+  Lemma exp1_nores : forall e m, fw_send e = true -> m <> MCall -> exp1 (e, m) = call0.
+  Proof. intros e m Hf Hm. unfold exp1. rewrite Hf. destruct m; [congruence|reflexivity|reflexivity]. Qed.
+  Lemma exp1_rej : forall e m, fw_send e = false -> exp1 (e, m) = rej_call m.
+  Proof. intros e m Hf. unfold exp1. rewrite Hf. reflexivity. Qed.
+  Lemma logof_run : forall e r, fw_recv (ev1 e) = true -> handler (ev2 e) = Some r -> logof e = [ev2 e].
+  Proof. intros e r Hf Hh. unfold logof. rewrite Hf, Hh. reflexivity. Qed.
+  Lemma logof_blocked : forall e, fw_recv (ev1 e) = false -> logof e = [] /\ outcome e = Some JNull.
+  Proof. intros e Hf. unfold logof, outcome. rewrite Hf. auto. Qed.
 End E2E.
+
+(* an honest schedule whose channels are empty at the end (the toy oracles of NodeProtoP.Ex) *)
+Lemma e2e_schedule_ex :
+  Forall honest_op [OSend Ex.e0 MCall; OAB 2; OAB 0; OBA 2; OBA 0]
+  /\ wab (Ex.final (fun _ => Some (Some Ex.result)) 2) = []
+  /\ wba (Ex.final (fun _ => Some (Some Ex.result)) 2) = [].
+Proof.
+  split; [|vm_compute; auto].
+  constructor; [exact (proj1 Ex.e0_wf)|]. repeat constructor.
+Qed.
